@@ -592,3 +592,61 @@ def pretty(e, depth=0):
     if k == "InitList":
         return "{%s}" % ", ".join(p(a) for a in e["a"])
     return "<%s>" % k
+
+
+def inline_void_helpers(stmt, helpers, depth=0):
+    """Copy of the statement tree in which every expression statement that is a call to one of `helpers` (free void
+    functions with a body, keyed by qualified name) is replaced by the callee's body with the parameters substituted by
+    the argument expressions. Arguments must be side-effect free lvalues / values (they are re-evaluated textually)."""
+    import copy
+
+    def subst(e, m):
+        if isinstance(e, dict):
+            if e.get("k") == "Ref" and e.get("id") in m:
+                return copy.deepcopy(m[e["id"]])
+            return {k: subst(v, m) for k, v in e.items()}
+        if isinstance(e, list):
+            return [subst(v, m) for v in e]
+        return e
+
+    def simple(a):
+        a = strip_casts(a)
+        if a is None:
+            return False
+        if a.get("k") in ("Ref", "Int", "Float", "Bool", "This", "Null"):
+            return True
+        if a.get("k") == "Un" and a.get("op") in ("*", "&"):
+            return simple(a["x"])
+        if a.get("k") == "Mem":
+            return simple(a["b"])
+        if a.get("k") == "Call" and a.get("op") in ("*", "->", "[]") and a.get("obj") is not None:
+            return simple(a["obj"]) and all(simple(x) for x in a.get("a", []))
+        if a.get("k") in ("Idx",):
+            return simple(a["a"]) and simple(a["i"])
+        if a.get("k") == "Ctor" and len(a.get("a", [])) == 1:
+            return simple(a["a"][0])
+        return False
+
+    def rec(s):
+        if not isinstance(s, dict):
+            return s
+        k = s.get("k")
+        if k == "Call" and not s.get("op") and s.get("obj") is None and s.get("fn") in helpers and depth < 3:
+            callee = helpers[s["fn"]]
+            if (callee.get("ret") or "void") == "void" and len(callee["params"]) == len(s["a"]) and \
+                    all(simple(a) for a in s["a"]) and \
+                    not any(x.get("k") == "Return" and x.get("x") is not None for x in walk_stmt(callee["body"])):
+                m = {p["id"]: a for p, a in zip(callee["params"], s["a"])}
+                body = subst(callee["body"], m)
+                return inline_void_helpers(body, helpers, depth + 1)
+            return s
+        if k == "Block":
+            out = dict(s)
+            out["s"] = [rec(x) for x in s.get("s", [])]
+            return out
+        out = dict(s)
+        for key in ("th", "el", "body", "sub"):
+            if isinstance(s.get(key), dict):
+                out[key] = rec(s[key])
+        return out
+    return rec(stmt)
